@@ -60,6 +60,17 @@ def gen_reflection(run):
         continue
       for g in (GAINS if p <= 3 else GAINS[:2]):
         yield (list(ks), g)
+  # high orders (a handful, not exhaustive): 8, 12, 20 and 33 coefficients
+  base = ["1/2", "-1/3", "1/3", "-1/2", "1/3", "0", "-1/3", "1/2", "-1/2", "1/3", "0", "1/2"]
+  for p in (8, 12, 20, 33):
+    for shift in (0, 1, 5):
+      ks = [base[(i + shift) % len(base)] for i in range(p)]
+      if F(ks[-1]) == 0:
+        ks[-1] = "1/3"
+      for g in GAINS[:2]:
+        yield (ks, g)
+    yield (["1/2"] * (p - 1) + ["2"], "1")          # the last one outside the circle
+    yield (["1/3"] * (p // 2) + ["-1"] + ["1/2"] * (p - p // 2 - 1), "1")   # critical in the middle
 
 
 def run_reflection(case):
